@@ -269,9 +269,13 @@ class C11(C.PipelineCheck):
                 msg = sym.sym_str_utf8('m', p['n']) if p['utf8'] else sym.sym_str('m', p['n'], 'printable')
                 holes['m'] = msg
                 ftype = 'String'
-                attrs = '#[validate(length(min = 1, max = 8, message = "HOLE_m"))]'
-                expected = [('min', concrete_num('1'), msg), ('max', concrete_num('8'), msg)]
+                # the message first, in the middle, last, and followed by another validator: whatever follows the literal must survive
+                pos = e.choose(4)
+                attrs = ['#[validate(length(min = 1, max = 8, message = "HOLE_m"))]', '#[validate(length(message = "HOLE_m", min = 1, max = 8))]',
+                         '#[validate(length(min = 1, message = "HOLE_m", max = 8))]', '#[validate(length(min = 1, max = 8, message = "HOLE_m"), email)]'][pos]
+                expected = [('min', concrete_num('1'), msg), ('max', concrete_num('8'), msg)] + ([('email', None, None)] if pos == 3 else [])
                 e.cover('message')
+                e.cover('message-pos:%d' % pos)
                 tag = 'message:%s' % ('utf8' if p['utf8'] else 'ascii')
             elif kind == 'message-range':
                 msg = sym.sym_str('m', 2, 'printable')
